@@ -4,6 +4,8 @@ Oracle for C03.
 case     : `stack=tlcp|dtlcp suite=<hex> auth=0|1 resume=0|1 base=<vers.suite.alpn.resumed>
             edit=none|flip|setlen|splice|drop|dup|swap|trunc|cut|inject
             [dir=c2s|s2c rec=<n> off=<n> mask=<hex> inj=<kind> | m=<n> op=<what> (splice) | mode=hard|soft|half (cut)]
+            [hold=1]  (datagram stack, second fault: the answers of the edited record's reader are withheld
+                       until its writer retransmits, so a genuine copy follows the altered one; observed `held=<n>`)
             [rtype= msg= field= orig=]`   (the last group names the edited bytes on the real record)
 observed : `c=<completed|failed(class)|panic> s=<…> stall=0|1 panic=0|1 [cv=<view>] [sv=<view>] [lay=<layout>]`
 
@@ -108,6 +110,7 @@ def injected (k : Codes) (kind : String) : Record :=
   else if kind == "alertf" then ⟨k.rtAlert, k.vers, [2, 40]⟩
   else if kind == "hs0" then ⟨k.rtHS, k.vers, []⟩
   else if kind == "ccs" then ⟨k.rtCCS, k.vers, [1]⟩
+  else if kind == "hsd" then ⟨k.rtHS, k.vers, frame k.tSHD []⟩
   else ⟨k.rtApp, k.vers, [104, 101, 108, 108, 111]⟩
 
 /-- the records of one writer, in order -/
@@ -289,7 +292,16 @@ def judge (c o : String) : Option Verdict := do
         !(dtls && msgTok0 == "ClientHello" && (kv ct "cookie") == some "0" && (kvNat ot "hvr").getD 0 ≥ 1) then
       some s!"the {msgTok0} record was removed"
     else none
-  let spec := judgeObs (opanic != "0" || oc == "panic" || os == "panic") cv sv (oc == "completed") (os == "completed") base altered
+  -- stream stack: a ChangeCipherSpec record or a whole handshake message INJECTED at a point where
+  -- the reader still has handshake records to read (not behind the sender's Finished, which is the
+  -- last record the reader takes before its handshake returns).  The datagram stack may discard.
+  let injTok := (kv ct "inj").getD ""
+  let injectedTaken : Option String :=
+    if kind == "inject" && !dtls && (injTok == "ccs" || injTok == "hsd") && msgTok0 != "never" &&
+        msgTok0 != "after:Finished(protected)" then
+      some (if injTok == "ccs" then "a ChangeCipherSpec record the peer never sent" else "a handshake message the peer never sent")
+    else none
+  let spec := judgeObs (opanic != "0" || oc == "panic" || os == "panic") cv sv (oc == "completed") (os == "completed") base altered injectedTaken
   let exact := mc == oc && ms == os && mstall == ostall
   let note := if !predicts then s!"dtlcp:unmodelled:both{oboth}"
     else if exact then "detail:exact" else s!"detail:coarse:model:{mc}/{ms}/stall{mstall}"
